@@ -1939,7 +1939,7 @@ Proof.
   { apply repeat_length. }
   { intros j Hj. simpl in Hj. rewrite app_nil_r in Hj. eapply Rep_ids_live; eauto. }
   { intros j _. split; auto. apply nth_repeat0. }
-  change (level r) with (level_forest (rheight r) [r]) in Hfold. rewrite Hf in Hfold. injection Hfold as <-. simpl fst in *.
+  pose proof (eq_trans (eq_sym Hfold) Hf) as Est. injection Est as ->. clear Hfold. simpl fst in *.
   inversion HL as [|? ? HLr _]; subst. clear HL.
   pose proof (Lad_Shape _ _ _ _ HLr) as HSh. rewrite (Rep_rid _ _ _ _ _ HR) in HSh.
   destruct (Rep_inv _ _ _ _ _ HR) as (nroot & cs0 & -> & Hnroot & Hdroot & _ & Hproot & _).
@@ -1955,7 +1955,7 @@ Proof.
     inversion HLs as [? ? m Hm Hm' _ _]; subst. assert (m = n) by congruence. subst m.
     rewrite Hm' in Hn'. injection Hn' as <-. cbn [nchildren set_nchildren].
     assert (Hch : nchildren n = map rid cs).
-    { apply Forall2_Shape_rid. pose proof (Shape_rsub _ _ _ _ _ (Rep_Shape _ _ _ _ _ HR) Hs) as HSs.
+    { apply (Forall2_Shape_rid t). pose proof (Shape_rsub _ _ _ _ _ (Rep_Shape _ _ _ _ _ HR) Hs) as HSs.
       destruct (Shape_inv _ _ _ HSs) as (m & cs' & Heq & Hm2 & HF). injection Heq as <-.
       assert (m = n) by congruence. subst m. auto. }
     rewrite (rladder_children _ j cs Hnd Hs), Hch. splits; auto.
@@ -1964,3 +1964,181 @@ Proof.
 Qed.
 
 End Ladderize2.
+
+(* ---- operations that only touch child lists keep every distance ------------------------------- *)
+Section UpStructure.
+Context {L : Type}.
+Notation arena := (@arena L).
+Notation node := (@node L).
+Implicit Types (t : arena) (n : node).
+Variable O : LenOps L.
+
+(* same liveness, parent and length in every slot *)
+Definition up_eq t t' : Prop :=
+  length t' = length t /\
+  forall j n, nth_error t j = Some n ->
+    exists n', nth_error t' j = Some n' /\ ndeleted n' = ndeleted n /\ nparent n' = nparent n /\
+               npedge n' = npedge n.
+
+Lemma get_up_eq t t' j :
+  up_eq t t' ->
+  match get t j with
+  | Ok n => exists n', get t' j = Ok n' /\ nparent n' = nparent n /\ npedge n' = npedge n
+  | Err e => get t' j = Err e
+  | Panic s => get t' j = Panic s
+  | OutOfFuel => get t' j = OutOfFuel
+  end.
+Proof.
+  intros [Hlen H]. unfold get. destruct (nth_error t j) as [n|] eqn:E.
+  - destruct (H _ _ E) as (n' & -> & Hd & Hp & He). rewrite Hd. destruct (ndeleted n); eauto.
+  - apply nth_error_None in E. rewrite (proj2 (nth_error_None t' j)) by lia. auto.
+Qed.
+
+Lemma path_up_eq t t' : up_eq t t' -> forall fuel x acc, path_up_f fuel t' x acc = path_up_f fuel t x acc.
+Proof.
+  intros H. induction fuel as [|f IH]; intros x acc; simpl; auto.
+  pose proof (get_up_eq t t' x H) as Hg. destruct (get t x) as [n| | |].
+  - destruct Hg as (n' & -> & Hp & _). simpl. rewrite Hp. destruct (nparent n); auto.
+  - rewrite Hg; auto.
+  - rewrite Hg; auto.
+  - rewrite Hg; auto.
+Qed.
+
+Theorem dist_up_eq t t' a b : up_eq t t' -> get_distance O t' a b = get_distance O t a b.
+Proof.
+  intros H. unfold get_distance. destruct (Nat.eqb a b); auto.
+  unfold get_path_from_root, fuel_of. rewrite (proj1 H), !(path_up_eq t t' H).
+  generalize (path_up_f (S (length t)) t a []). intros [pa| | |]; cbn [bind]; auto.
+  generalize (path_up_f (S (length t)) t b []). intros [pb| | |]; cbn [bind]; auto.
+  f_equal. generalize (skipn (first_diff pa pb 0) pa ++ skipn (first_diff pa pb 0) pb).
+  intros l. generalize (l0 O, true, 0). induction l as [|x l IH]; intros st; simpl; auto.
+  destruct st as [[d al] br].
+  pose proof (get_up_eq t t' x H) as Hg. destruct (get t x) as [n| | |].
+  - destruct Hg as (n' & -> & _ & He). simpl. rewrite He. destruct (npedge n); simpl; auto.
+  - rewrite Hg; auto.
+  - rewrite Hg; auto.
+  - rewrite Hg; auto.
+Qed.
+
+Lemma perm_of_up_eq t t' : perm_of t t' -> up_eq t t'.
+Proof.
+  intros [Hlen H]. split; auto. intros j n Hn. destruct (H _ _ Hn) as (ch & Hch & _).
+  eexists. split; [exact Hch|]. simpl. auto.
+Qed.
+
+(* ladderize keeps the leaves and every distance (length and edge count) *)
+Theorem ladderize_dist t t' a b : ladderize t = Ok t' -> get_distance O t' a b = get_distance O t a b.
+Proof. intros H. apply dist_up_eq, perm_of_up_eq, ladderize_perm, H. Qed.
+
+Theorem ladderize_leaves t t' : ladderize t = Ok t' -> get_leaves t' = get_leaves t.
+Proof.
+  intros H. destruct (ladderize_perm _ _ H) as [Hlen Hp].
+  apply get_leaves_ext; [lia| |].
+  - intros j n n' Hn Hn'. destruct (Hp _ _ Hn) as (ch & Hch & Hperm).
+    rewrite Hch in Hn'. injection Hn' as <-. unfold leafkey, is_tip. simpl.
+    destruct ch, (nchildren n); auto.
+    + apply Permutation_nil in Hperm. discriminate.
+    + apply Permutation_sym, Permutation_nil in Hperm. discriminate.
+  - intros j n' Hj Hn'. apply nth_error_Some_lt in Hn'. lia.
+Qed.
+
+End UpStructure.
+
+(* ================================================================================================ *)
+(* 8. compress keeps every path length                                                               *)
+(* ================================================================================================ *)
+Lemma skipn_length_app {A} (q a : list A) : skipn (length q) (q ++ a) = a.
+Proof. induction q; simpl; auto. Qed.
+
+Lemma tails_filter (f : nat -> bool) pc c0 ta tb :
+  f c0 = true -> (forall z, In z ta -> In z tb -> False) ->
+  skipn (cpl (filter f (pc ++ c0 :: ta)) (filter f (pc ++ c0 :: tb))) (filter f (pc ++ c0 :: ta)) = filter f ta /\
+  skipn (cpl (filter f (pc ++ c0 :: ta)) (filter f (pc ++ c0 :: tb))) (filter f (pc ++ c0 :: tb)) = filter f tb.
+Proof.
+  intros Hc Hdis. rewrite !filter_app. simpl. rewrite Hc.
+  change (c0 :: filter f ta) with ([c0] ++ filter f ta). change (c0 :: filter f tb) with ([c0] ++ filter f tb).
+  rewrite !app_assoc, cpl_app, (cpl_disjoint (filter f ta) (filter f tb)), Nat.add_0_r.
+  - split; apply skipn_length_app.
+  - intros z Hz1 Hz2. apply filter_In in Hz1 as [Hz1 _]. apply filter_In in Hz2 as [Hz2 _]. eauto.
+Qed.
+
+Section CompressDist.
+Context {L : Type}.
+Notation arena := (@arena L).
+Notation node := (@node L).
+Implicit Types (t : arena) (n : node).
+Variable O : LenOps L.
+Hypothesis ladd_assoc : forall x y z, ladd O x (ladd O y z) = ladd O (ladd O x y) z.
+
+Lemma fold_ladd_merge lu lv x y a0 :
+  fold_left (ladd O) (lu ++ ladd O x y :: lv) a0 = fold_left (ladd O) (lu ++ x :: y :: lv) a0.
+Proof. rewrite !fold_left_app. simpl. rewrite ladd_assoc. reflexivity. Qed.
+
+Lemma all_present_app (e1 e2 : list (option L)) : all_present (e1 ++ e2) = all_present e1 && all_present e2.
+Proof. unfold all_present. apply forallb_app. Qed.
+
+Lemma present_app (e1 e2 : list (option L)) : present (e1 ++ e2) = present e1 ++ present e2.
+Proof. unfold present. apply flat_map_app. Qed.
+
+Definition notid (id : nat) (k : nat) : bool := negb (Nat.eqb k id).
+
+Lemma filter_notid_id id l : ~ In id l -> filter (notid id) l = l.
+Proof.
+  intros H. apply filter_id. intros x Hx. apply negb_true_iff, Nat.eqb_neq. intros ->. auto.
+Qed.
+
+Lemma path_len_merge (E E' : nat -> option L) u v id c :
+  ~ In id u -> ~ In id v -> ~ In c u -> ~ In c v -> c <> id ->
+  (forall x, x <> c -> x <> id -> E' x = E x) ->
+  E' c = match E id, E c with Some p, Some q => Some (ladd O p q) | _, _ => None end ->
+  (E id = None <-> E c = None) ->
+  path_len O (map E' (filter (notid id) (u ++ id :: c :: v))) = path_len O (map E (u ++ id :: c :: v)).
+Proof.
+  intros Hu Hv Hcu Hcv Hcid Hsame Hc Hiff.
+  rewrite filter_app. cbn [filter]. unfold notid at 2 3. rewrite Nat.eqb_refl.
+  replace (Nat.eqb c id) with false by (symmetry; apply Nat.eqb_neq; auto). cbn [negb].
+  rewrite !filter_notid_id by auto. rewrite !map_app. cbn [map].
+  assert (Eu : map E' u = map E u).
+  { apply map_ext_in. intros x Hx. apply Hsame; intros ->; auto. }
+  assert (Ev : map E' v = map E v).
+  { apply map_ext_in. intros x Hx. apply Hsame; intros ->; auto. }
+  rewrite Eu, Ev, Hc. unfold path_len.
+  rewrite !all_present_app, !present_app.
+  destruct (E id) as [p|] eqn:Eid, (E c) as [q|] eqn:Ec.
+  - cbn [all_present forallb present flat_map app andb].
+    destruct (all_present (map E u) && all_present (map E v)) eqn:Hall.
+    + change (forallb (fun o : option L => match o with Some _ => true | None => false end) (map E v))
+        with (all_present (map E v)). rewrite Hall. f_equal. apply fold_ladd_merge.
+    + change (forallb (fun o : option L => match o with Some _ => true | None => false end) (map E v))
+        with (all_present (map E v)). rewrite Hall. reflexivity.
+  - exfalso. destruct Hiff as [_ H]. specialize (H eq_refl). discriminate.
+  - exfalso. destruct Hiff as [H _]. specialize (H eq_refl). discriminate.
+  - cbn [all_present forallb andb]. rewrite !andb_false_r. reflexivity.
+Qed.
+
+Lemma path_len_same (E E' : nat -> option L) l id c :
+  ~ In id l -> ~ In c l -> (forall x, x <> c -> x <> id -> E' x = E x) ->
+  path_len O (map E' (filter (notid id) l)) = path_len O (map E l).
+Proof.
+  intros Hid Hc Hsame. rewrite filter_notid_id by auto. f_equal.
+  apply map_ext_in. intros x Hx. apply Hsame; intros ->; auto.
+Qed.
+
+End CompressDist.
+
+(* ==== assumptions ==== *)
+Print Assumptions prune_exact.
+Print Assumptions prune_root.
+Print Assumptions merge_exact.
+Print Assumptions merge_refused.
+Print Assumptions merge_same_refused.
+Print Assumptions merge_dead.
+Print Assumptions rescale_exact.
+Print Assumptions rescale_dist.
+Print Assumptions compress_post.
+Print Assumptions compress_leaves.
+Print Assumptions resolve_post.
+Print Assumptions ladderize_perm.
+Print Assumptions ladderize_post.
+Print Assumptions ladderize_leaves.
+Print Assumptions ladderize_dist.
